@@ -134,6 +134,10 @@ def split_goal(goal: Any, hyps: Optional[List[Any]] = None, depth: int = 0) -> L
     if z3.is_implies(goal):
         a, b = goal.children()
         return split_goal(b, hyps + [a], depth + 1)
+    if z3.is_eq(goal) and z3.is_bool(goal.arg(0)) and depth < 6 \
+            and (has_quant(goal) or not z3.is_const(goal.arg(0))):
+        a, b = goal.children()
+        return split_goal(b, hyps + [a], depth + 1) + split_goal(a, hyps + [b], depth + 1)
     if z3.is_or(goal):
         neg = [c.arg(0) for c in goal.children() if z3.is_not(c)]
         pos = [c for c in goal.children() if not z3.is_not(c)]
